@@ -96,6 +96,8 @@ class Prop(PropBase):
         for i in range(n):
             cls = rng.choice(sigs.CLASSES)
             L = rng.choice([0, 1, 2, 3, 5, 7, 16, 17, 25, 64, 97, 100, 1000, rng.randint(0, 3000)])
+            if i % 150 == 7:
+                L = rng.choice([100003, 262144, 1 << 20])        # long records (accumulated rounding, narrow intermediates)
             rate = rng.choice(RATES)
             t0 = rng.choice(sigs.T0S + [None])
             nops = rng.choice([1, 1, 2, 3, rng.randint(1, maxops)])
